@@ -32,8 +32,23 @@ C = {
          "machine-checked proof (Lean 4) + differential correspondence", ""),
  "C13": ("Props/C13: encode_spec, decode_encode, encode_decode, decode_invalid, checkDecode_checkEncode, checkDecode_iff for all byte strings; table facts by kernel evaluation of the regenerated tables.",
          "machine-checked proof (Lean 4) over regenerated tables + differential correspondence", ""),
- "C14": ("Props/C14: wif_layout, address_layout, hash compositions; decodeWIF and checksum behaviour by the correspondence, which compares Go's hash helpers with independent Lean SHA-256/RIPEMD-160.",
+ "C14": ("Props/C14 + C14b: wif_layout, address_layout, hash compositions, decodeWIF_wifString, decodeWIF_iff (exact acceptance) and the three rejection corollaries; the hash helpers are compared with independent Lean SHA-256/RIPEMD-160 by the correspondence.",
          "machine-checked proof (Lean 4) + differential correspondence", ""),
+ "C16": ("Props/C16: a heap model of Go slices (arrays, (arr,off,len,cap) slices, in-place append within capacity) with statement-by-statement transcriptions of the argument handling of Encrypt/Decrypt, Mnemonic, crypto.Encrypt/Decrypt, CheckEncode/CheckDecode, Serialise*, WIF/xkey String, Child, SignCompact, NAF; frame theorems (every pre-existing array unchanged over its whole length, so spare capacity too), negative theorems for the three pre-fix variants, determinism/repeatability. Partial by nature: big integers, keys and signatures are values in the model — their non-mutation and the quantifier 'every exported function' rest on the direct observation (harness mem: all 75 exported functions, table checked for completeness against the source, canary windows with spare capacity 0..64, tracked big.Int/key/xkey objects, repeated call).",
+         "machine-checked frame proofs over a heap model (Lean 4) + heap-level differential correspondence (mem.*) + exhaustive API sweep with canaries",
+         "Go's allocator/GC and slice growth policy are not modelled (not observable here); unsafe is not used by the library."),
+ "C17": ("Props/C17: an abstract shared-memory model with sync.Once (blocking Do, happens-before = program order + once completion) and the theorem once_discipline_race_free: for ANY number of threads and EVERY interleaving a program obeying the once-discipline has no data race, runs each once body at most once and every read returns the sequentially initialised value; discipline_holds/bridge_holds: the REGENERATED fact base (every package-level variable, write site, shared-pointer argument, once region, lazily initialised field of the eight packages) satisfies the discipline (by decide). Partial by nature: the Go scheduler and hardware memory model are outside any executable model; they are validated by a race-detector run (2..64 goroutines, first S256() and first pubKeyBytes() raced in fresh processes, results compared with sequential ones).",
+         "machine-checked proof over an abstract concurrency model (Lean 4) + regenerated fact extractor + race-detector validation run",
+         "The fact extractor gen/facts.go (alias analysis, stdlib read-only tables) is trusted; the Go memory model and sync.Once semantics are modelled, not derived."),
+ "C18": ("Props/C18: on the object-store model of key histories (Model/XKeyStore: objects + registers, Neuter of a public key and path \"\" return the same object) frame theorems: every operation leaves every other object unchanged, constructors only append, Zero/SetNet touch exactly one object, a zeroed key reports 'zeroed extended key' and not private, SetNet changes only the version; observations depend on the object value only. The absence of hidden sharing in the real code is tied by the history stream (exhaustive op sequences to length 3 (4 thorough) over 8 ops applied to every live key from private and public roots + random length-30 histories, all live keys observed after every step).",
+         "machine-checked proof (Lean 4) on an object-store model + exhaustive-history differential correspondence",
+         "Slice-level sharing inside ExtendedKey is not in the value-level model; it is exercised by the history stream (zero one key, observe all others)."),
+ "C19": ("Props/C19: the random source as an oracle tape; *_draws theorems: every generated key, IV, seed, entropy IS a tape segment (key = first 32-byte read in [1,N-1], pub = d*G), failing reads give errors (never a constant), `fresh`: pairwise-distinct tape reads give pairwise-distinct random fields across ANY call sequence; sign/derivation/encodings take no tape. Partial by nature: entropy quality of the OS source is outside the model. Tie: crypto/rand.Reader replaced by a logging tape (incl. failing and short reads); outputs must equal the Lean tape consumers byte for byte.",
+         "machine-checked proof (Lean 4) over a tape model + byte-exact differential correspondence with an instrumented rand.Reader",
+         "Go 1.23.5 ecdsa.GenerateKey (randFieldElement, MaybeReadByte) is modelled by hand; a failed 1-byte MaybeReadByte read is not modelled (the harness never fails 1-byte reads)."),
+ "C20": ("Props/C20: isValid_none_none, isValid_one, isValid_iff / isValid_invalid_iff / isValid_error_iff (exact decision logic against canonHash as the property words it), own_valid for EVERY payload byte string (chains C02 sign_verifies, C05/C06 round trips, hex round trip), own_valid_roundtrip under the stated JSON round-trip assumption.",
+         "machine-checked proof (Lean 4) + differential correspondence",
+         "encoding/json is not modelled: payloads are taken as marshalled by the real code; the envelope's JSON round trip is assumed to be the identity on its string fields (checked on the real code by the harness)."),
  "C15": ("Props/C15: for each of the 16 listed entry points and the 4 envelope field combinations a CHECKED transcription (Model/Checked.lean: index, slice, nil-dereference, CryptBlocks panics modelled) is proved never to panic on any input (_total) and to agree with the total model the harness runs against the real code (_agrees); termination is structural.",
          "machine-checked proof (Lean 4) of panic-freedom of checked transcriptions + differential correspondence with panic capture", "Standard-library internals (sort.Search, regexp, strings.Fields, big.Int) are not transcribed."),
 }
